@@ -19,6 +19,23 @@ for the PWL regularizers, whose kernel is a list of columns (one per unit), `pwl
 `pwl_hessian_per_unit`, `pwl_wrinkle_per_unit` (cyclic or not).  The only hypothesis on the amounts is
 that the units axis carries none (`amount_units_axis_zero_*`, `pairW_units_axis_zero_*`: scalars, and
 lists with one entry per lattice dimension).
+
+Scope of the clauses stated HERE, completed in `Props/C13Exact.lean` (second audit, rows 12 / 33):
+* the vanishing sets `pwl_laplacian_const`, `pwl_hessian_affine`, `pwl_wrinkle_quadratic` below are stated for
+  `is_cyclic = False`.  For `is_cyclic = True` all three regularizers vanish on CONSTANT outputs
+  (`pwl_*_const_any`) and, with a positive amount, only there (`pwl_*_cyclic_zero_iff`): the wrap-around terms
+  do not vanish on non-constant linear / quadratic outputs (`pwl_hessian_cyclic_affine_witness` = 6,
+  `pwl_wrinkle_cyclic_quadratic_witness` = 48, the values of the real code).  The property's clause on linear /
+  quadratic outputs is a statement about the non-cyclic form.
+* `laplacian_linear_scalar`, `torsion_linear_scalar` are the SCALAR instances of linearity.  For per-dimension
+  lists the Laplacian is linear in the amount vectors (`laplacian_linear`, `laplacian_vector_add`,
+  `laplacian_vector_smul`); the torsion is linear in the pair weights `l_i l_j` (`torsion_linear_pairW`), i.e.
+  bilinear: degree-2 homogeneous (`torsion_vector_smul_sq`), affine in each dimension's amount
+  (`torsion_dim_affine_l1/_l2`) and NOT additive in the vector (`torsion_list_not_additive`: 27 ≠ 15).
+  `reg l1 l2 = reg l1 0 + reg 0 l2`: `laplacian_split`, `torsion_split`, `pwl_split`.
+* `Amt.Nonneg` is the hypothesis of the non-negativity clause.  The real code ACCEPTS negative amounts
+  (returning negative values) except `sqrt` of a negative scalar torsion amount (`torsion_raises_iff`);
+  `torsion_eq_documented_rootOk` is `torsion_eq_documented` for every accepted amount.
 -/
 namespace Tfl.C13
 open Tfl Tfl.Reg
@@ -41,7 +58,9 @@ theorem laplacian_eq_documented (sizes : List Nat) (units : Nat) (l1 l2 : Amt) (
   · simp only [lapCore_eq_spec, extSizes]
     exact lapSpec_congr_amt w (fun d => lapAmounts_getR _ _ _ d) (fun d => lapAmounts_getR _ _ _ d)
 
-/-- Lattice torsion (rank ≠ 1, non-negative amounts — `sqrt` of a negative scalar raises): the planes
+/-- Lattice torsion (rank ≠ 1, non-negative amounts — `sqrt` of a negative scalar raises; negative entries
+of per-dimension LISTS are accepted by the code, and the equality holds for them too:
+`torsion_eq_documented_rootOk` in `Props/C13Exact.lean`): the planes
 enumerate every 2x2 cell of every pair of dimensions `d < d'` once; the pair is weighted by the
 product of the per-dimension amounts (a scalar `a` weights every pair by `a`). -/
 theorem torsion_eq_documented (sizes : List Nat) (units : Nat) (l1 l2 : Amt) (w : W)
@@ -112,7 +131,9 @@ theorem torSpec_nonneg (sizes : List Nat) (p1 p2 : Nat → Nat → Rat) (w : W)
   obtain ⟨idx, _, rfl⟩ := List.mem_map.mp hz
   exact absSq_nonneg (h1 i j) (h2 i j) _
 
-/-- the lattice Laplacian regularizer is non-negative for non-negative amounts -/
+/-- the lattice Laplacian regularizer is non-negative for non-negative amounts.  (`Nonneg` is the clause's
+hypothesis, not an acceptance condition: the code accepts negative amounts and then returns negative
+values — `laplacian_neg_witness`, `torsion_neg_list_witness` in `Props/C13Exact.lean`.) -/
 theorem laplacian_nonneg (sizes : List Nat) (units : Nat) (l1 l2 : Amt) (w : W)
     (h1 : l1.Nonneg) (h2 : l2.Nonneg) : 0 ≤ laplacian sizes units l1 l2 w := by
   rw [laplacian_eq_documented]
@@ -141,7 +162,8 @@ theorem torSpec_linear (sizes : List Nat) (a b : Rat) (P1 P2 p1 p2 p1' p2' : Nat
   unfold torSpec
   simp only [hP1, hP2, absSq_linear, rsum_map_linear]
 
-/-- linearity of the real entry point in scalar `(l1, l2)` -/
+/-- linearity of the real entry point in scalar `(l1, l2)`; per-dimension lists and mixtures:
+`laplacian_linear` (`Props/C13Exact.lean`) -/
 theorem laplacian_linear_scalar (sizes : List Nat) (units : Nat) (a b x y x' y' : Rat) (w : W) :
     laplacian sizes units (.scalar (a * x + b * x')) (.scalar (a * y + b * y')) w =
       a * laplacian sizes units (.scalar x) (.scalar y) w +
@@ -149,7 +171,10 @@ theorem laplacian_linear_scalar (sizes : List Nat) (units : Nat) (a b x y x' y' 
   simp only [laplacian_eq_documented]
   apply lapSpec_linear <;> intro d <;> simp only [Amt.toList, getR_replicate] <;> split_ifs <;> ring
 
-/-- linearity of the real entry point in scalar `(l1, l2)` (non-negative amounts, so that `sqrt` is defined) -/
+/-- linearity of the real entry point in SCALAR `(l1, l2)` (non-negative amounts, so that `sqrt` is defined).
+Not true for per-dimension lists, whose amounts multiply pairwise (`torsion_list_not_additive`: lists `[1,1]`,
+`[2,2]`, `[3,3]` give 3, 12, 27); what holds there is linearity in the pair weights / bilinearity:
+`torsion_linear_pairW`, `torsion_vector_smul_sq`, `torsion_dim_affine_l1/_l2` (`Props/C13Exact.lean`). -/
 theorem torsion_linear_scalar (sizes : List Nat) (units : Nat) (a b x y x' y' : Rat) (w : W)
     (ha : 0 ≤ a) (hb : 0 ≤ b) (hx : 0 ≤ x) (hy : 0 ≤ y) (hx' : 0 ≤ x') (hy' : 0 ≤ y')
     (hr : sizes.length ≠ 1) :
@@ -174,7 +199,7 @@ theorem pwl_linear (terms : List Rat → List Rat) (a b l1 l2 l1' l2' : Rat) (co
       a * pwlReg terms l1 l2 cols + b * pwlReg terms l1' l2' cols := by
   simp only [pwlReg_eq]; ring
 
-/-! ## T3 — vanishing sets -/
+/-! ## T3 — vanishing sets (PWL: non-cyclic form here; every `is_cyclic` in `Props/C13Exact.lean`) -/
 
 /-- Laplacian of a kernel whose every unit is constant on the lattice is zero (`c u` = value of unit `u`;
 with `units = 1` the last coordinate does not exist and reads `0`). The amount hypotheses say that the
@@ -249,7 +274,8 @@ theorem pwlReg_zero (terms : List Rat → List Rat) (l1 l2 : Rat) (cols : List (
     exact h x hx t htx
   rw [pwlReg_eq, sumAbs_eq_zero hz, sumSq_eq_zero hz]; ring
 
-/-- PWL Laplacian vanishes when the keypoint outputs of every unit are constant -/
+/-- PWL Laplacian (non-cyclic form) vanishes when the keypoint outputs of every unit are constant.
+Cyclic or not: `pwl_laplacian_const_any`; exact cyclic vanishing set: `pwl_laplacian_cyclic_zero_iff`. -/
 theorem pwl_laplacian_const (l1 l2 : Rat) (cols : List (List Rat))
     (h : ∀ x ∈ cols, ∃ a : Rat, outs x = (List.range x.length).map (fun _ => a)) :
     pwlLaplacian l1 l2 false cols = 0 := by
@@ -264,7 +290,11 @@ theorem pwl_laplacian_const (l1 l2 : Rat) (cols : List (List Rat))
   obtain ⟨j, _, rfl⟩ := ht
   ring
 
-/-- PWL Hessian vanishes when the keypoint outputs are an affine function of the keypoint INDEX -/
+/-- PWL Hessian, NON-CYCLIC form (`is_cyclic = False`), vanishes when the keypoint outputs are an affine
+function of the keypoint INDEX.  This is the form the property's clause is about: the cyclic Hessian contains
+the two wrap-around second differences, which are `∓ k b` on outputs `a + b j` (`pwl_hessian_cyclic_affine`;
+`(0,1,2) ↦ 6`), so it vanishes exactly on constant outputs (`pwl_hessian_const_any`,
+`pwl_hessian_cyclic_zero_iff`). -/
 theorem pwl_hessian_affine (l1 l2 : Rat) (cols : List (List Rat))
     (h : ∀ x ∈ cols, ∃ a b : Rat, outs x = (List.range x.length).map (fun (j : Nat) => a + b * (j : Rat))) :
     pwlHessian l1 l2 false cols = 0 := by
@@ -278,7 +308,10 @@ theorem pwl_hessian_affine (l1 l2 : Rat) (cols : List (List Rat))
   obtain ⟨j, _, rfl⟩ := ht
   push_cast; ring
 
-/-- PWL wrinkle vanishes when the keypoint outputs are a quadratic polynomial of the keypoint INDEX -/
+/-- PWL wrinkle, NON-CYCLIC form (`is_cyclic = False`), vanishes when the keypoint outputs are a quadratic
+polynomial of the keypoint INDEX.  The cyclic wrinkle does not (`pwl_wrinkle_cyclic_quadratic_witness`:
+`(0,1,4,9) ↦ 48`); it vanishes exactly on constant outputs (`pwl_wrinkle_const_any`,
+`pwl_wrinkle_cyclic_zero_iff`). -/
 theorem pwl_wrinkle_quadratic (l1 l2 : Rat) (cols : List (List Rat))
     (h : ∀ x ∈ cols, ∃ a b c : Rat,
       outs x = (List.range x.length).map (fun (j : Nat) => a + b * (j : Rat) + c * (j : Rat) * (j : Rat))) :
